@@ -402,6 +402,24 @@ val set_strict : state -> bool -> state
 
 val set_names : state -> char list list -> state
 
+val set_span : state -> z list -> state
+
+val set_index : state -> char list list -> state
+
+val set_dflt : state -> dreq option -> state
+
+val underscored : char list -> bool
+
+val bookkeeping : ckind -> char list -> bool
+
+val as_int_list : operand -> z list option
+
+val as_str_list : operand -> char list list option
+
+val as_dreq : operand -> dreq option
+
+val tail_of : char list -> char list
+
 type res = state * unit outcome
 
 val ok : state -> res
@@ -504,6 +522,8 @@ val values_setter :
   (dtype -> pyval -> pyval outcome) -> (dtype -> dtype -> pyval -> pyval
   outcome) -> (pyval list -> dtype) -> operand -> state -> res
 
+val book_setattr : char list -> operand -> state -> res
+
 val obj_setattr :
   (dtype -> pyval -> pyval outcome) -> (dtype -> dtype -> pyval -> pyval
   outcome) -> (pyval list -> dtype) -> char list -> operand -> state -> res
@@ -528,6 +548,8 @@ val replace_values :
   (dtype -> pyval -> pyval outcome) -> (dtype -> dtype -> pyval -> pyval
   outcome) -> (pyval list -> dtype) -> (dtype -> exn) ->
   (char list * operand) list -> state -> res
+
+val storage_taken : char list -> state -> bool
 
 val base_add_variable :
   (dtype -> pyval -> pyval outcome) -> (dtype -> dtype -> pyval -> pyval
@@ -666,6 +688,8 @@ val alias_getattr_var : aobj -> char list -> state -> pyval list outcome
 
 val starts_underscore : char list -> bool
 
+val base_columns_with : bool -> bool -> bool -> state -> char list list
+
 val base_columns : state -> char list list
 
 val last_alias : amap_t -> char list -> char list option
@@ -681,7 +705,14 @@ val replacements :
 
 val rename_columns : aobj -> char list list -> char list list outcome
 
+val export_cols :
+  aobj -> char list list -> (char list * char list) list outcome
+
 val export : aobj -> state -> (char list * char list) list outcome
+
+val export_with :
+  aobj -> bool -> bool -> bool -> state -> (char list * char list) list
+  outcome
 
 val positions : z list -> z list -> (nat * nat) list
 
